@@ -646,7 +646,10 @@ def srvLine (st : SrvSt) (ts : List Tok) : SrvSt :=
       | _ => bad st
     else if c = "hang" then
       let st := bump st
-      (st.monfail "c10" "the server did not answer within the watchdog (hang)").diff "hang" "the implementation hung"
+      -- a request that is never answered violates every property that promises answers: C10 (after a
+      -- disconnect), C11 (under concurrency), C12 (after a malformed operation)
+      let m := "the server did not answer within the watchdog (hang)"
+      (((st.monfail "c10" m).monfail "c12" m).monfail "c11" m).diff "hang" "the implementation hung"
     else if c = "cf.obs" then { st with rs := faultLine st.rs ts }
     else if c.startsWith "cp." then { st with rs := complianceLine st.rs ts }
     else if c.startsWith "rc." then
